@@ -84,7 +84,7 @@ SetCol(t, w) == cols' = [cols EXCEPT ![t] = w] /\ UNCHANGED <<next, pend>>
 
 (* add_to(sourceIndex, targetIndex)                                           *)
 AddTo(s, t) ==
-  /\ s \in Live /\ t \in Live /\ s # t
+   /\ s \in Live /\ t \in Live     \* s = t allowed: a column may be added to itself
   /\ SetCol(t, AddV(cols[t], cols[s]))
   /\ act' = [op |-> "add", s |-> s, t |-> t]
 
@@ -98,7 +98,7 @@ AddRangeTo(v, t, o) ==
 
 (* multiply_target_and_add_to: target = coefficient * target + source         *)
 MulTargetAndAdd(s, c, t) ==
-  /\ s \in Live /\ t \in Live /\ s # t
+   /\ s \in Live /\ t \in Live     \* s = t allowed: a column may be added to itself
   /\ SetCol(t, AddV(ScaleV(c, cols[t]), cols[s]))
   /\ act' = [op |-> "mta", s |-> s, c |-> c, t |-> t]
 MulTargetAndAddRange(v, c, t, o) ==
@@ -108,7 +108,7 @@ MulTargetAndAddRange(v, c, t, o) ==
 
 (* multiply_source_and_add_to: target += coefficient * source                 *)
 MulSourceAndAdd(c, s, t) ==
-  /\ s \in Live /\ t \in Live /\ s # t
+   /\ s \in Live /\ t \in Live     \* s = t allowed: a column may be added to itself
   /\ SetCol(t, AddV(cols[t], ScaleV(c, cols[s])))
   /\ act' = [op |-> "msa", s |-> s, c |-> c, t |-> t]
 MulSourceAndAddRange(c, v, t, o) ==
